@@ -38,6 +38,10 @@ PROVED_VS_SEARCHED = {
     "linear algebra shapes": "proved: matmul (five documented cases vs the numpy rule), mm, bmm, mv, dot, linear (Gemm / 1-D weight / MatMul+Add); values: searched",
     "attribute adjustment": "proved: pads layouts, avg/max pool, convolution (+transposed), conv1d/2d/3d (_partial: conv3d without bias), Pad, unfold, "
                             "upsample size path, im2col, col2im; upsample scales path: searched",
+    "normalisation / sort / addmm (round 5)": "proved: layer_norm / native_layer_norm output shapes incl. mean/rstd (_partial: non-empty normalised "
+                                              "block), sort (rank-0 branch and TopK), addmm (model = spec, refusals included), baddbmm, glu (_partial: "
+                                              "split size non-zero); values: searched",
+    "piecewise activations": "searched only, but deliberately: 15 activations probed at every knee of their scalar parameters (required counters)",
     "creation": "proved: arange length characterisation, linspace length, full/zeros/ones(-like) terms and shapes; values: searched",
     "floating-point kernels": "NOT proved (outside the technique): differential search only",
     "end-to-end export": "searched only (torch.onnx.export(dynamo=True) on small random modules)",
@@ -518,6 +522,18 @@ def replay(L, drv, name, case, stats):
         return roll_complex_case(L, case, stats)
     if name in INT_FUNCS:
         return check_int(L, drv, name, case, stats)
+    if name.startswith("float:") and case.get("fn") in ACTIVATIONS and "x" in case:
+        t = L._mods()["torch"]
+        e = next(e for e in _activation_table(t) if e[0] == case["fn"])
+        x = np.asarray(np.array(case["x"], dtype=np.float32))
+        args, kw = e[4](x, case["params"])
+        stats["cases"] += 1
+        r, _term, err = _ort_vals(L, e[1], args, kw)
+        tor = e[5](t.tensor(x), case["params"]).numpy()
+        if r is None:
+            return [("property", name, case, f"traced graph fails: {err}")]
+        d = _cmp(r[0], tor)
+        return [("property", name, case, d)] if d else []
     return []
 
 
@@ -659,7 +675,95 @@ def float_search(L, run, stats):
         one("aten_mm", [a_, b_], {}, lambda: t.mm(t.tensor(a_), t.tensor(b_)), dict(fn="mm"))
         bias = arr([2])
         one("aten_addmm", [bias, a_, b_], {"beta": 0.5, "alpha": 2.0}, lambda: t.addmm(t.tensor(bias), t.tensor(a_), t.tensor(b_), beta=0.5, alpha=2.0), dict(fn="addmm"))
+    problems += piecewise_activations(L, run, stats, one)
     return problems
+
+
+# Piecewise activations with scalar parameters (after seed C08-10: `aten_softplus` compared the raw input, not input*beta, with
+# `threshold` — visible only for beta != 1 AND a small threshold AND an input between threshold/beta and threshold).
+# For every function: `knees(p)` lists every input value at which *some* reading of the parameters could switch pieces (for
+# softplus both threshold and threshold/beta); the inputs are each knee -/+ {0.05, 0.3}, the midpoints between consecutive
+# knees, and two far points.  The first case of every function is a deliberate non-default parameter tuple whose knees are
+# all distinct; the rest are random.  Counters `act:<fn>` and `act:<fn>:knees-distinct` are required (INFRA if 0).
+def _activation_table(t):
+    F = t.nn.functional
+    return [
+        # name, torch_lib function, deliberate first parameters, random parameters, args(x, p), torch(x, p), knees(p)
+        ("softplus", "aten_softplus", dict(beta=2.0, threshold=1.0),
+         lambda r: dict(beta=r.choice([1.0, 2.0, 0.5, 3.0]), threshold=r.choice([20.0, 1.0, 0.5, 2.0])),
+         lambda x, p: ([x, p["beta"], p["threshold"]], {}), lambda x, p: F.softplus(x, p["beta"], p["threshold"]),
+         lambda p: [p["threshold"] / p["beta"], p["threshold"]]),
+        ("leaky_relu", "aten_leaky_relu", dict(slope=0.2), lambda r: dict(slope=r.choice([0.01, 0.2, -0.5, 2.0])),
+         lambda x, p: ([x, p["slope"]], {}), lambda x, p: F.leaky_relu(x, p["slope"]), lambda p: [0.0]),
+        ("hardtanh", "aten_hardtanh", dict(lo=-0.5, hi=0.25),
+         lambda r: dict(lo=r.choice([-1.0, -0.5, 0.0, -2.0]), hi=r.choice([1.0, 0.25, 2.0])),
+         lambda x, p: ([x, p["lo"], p["hi"]], {}), lambda x, p: F.hardtanh(x, p["lo"], p["hi"]), lambda p: [p["lo"], p["hi"]]),
+        ("celu", "aten_celu", dict(alpha=2.0), lambda r: dict(alpha=r.choice([1.0, 0.5, 2.0, 3.0])),
+         lambda x, p: ([x, p["alpha"]], {}), lambda x, p: F.celu(x, p["alpha"]), lambda p: [0.0, -p["alpha"]]),
+        ("relu6", "aten_relu6", dict(), lambda r: dict(), lambda x, p: ([x], {}), lambda x, p: F.relu6(x), lambda p: [0.0, 6.0]),
+        ("hardsigmoid", "aten_hardsigmoid", dict(), lambda r: dict(), lambda x, p: ([x], {}), lambda x, p: F.hardsigmoid(x),
+         lambda p: [-3.0, 3.0]),
+        ("hardswish", "aten_hardswish", dict(), lambda r: dict(), lambda x, p: ([x], {}), lambda x, p: F.hardswish(x),
+         lambda p: [-3.0, 3.0]),
+        ("gelu", "aten_gelu", dict(approximate="tanh"), lambda r: dict(approximate=r.choice(["none", "tanh"])),
+         lambda x, p: ([x, p["approximate"]], {}), lambda x, p: F.gelu(x, approximate=p["approximate"]), lambda p: [0.0, 1.0]),
+        ("logit", "aten_logit", dict(eps=0.25), lambda r: dict(eps=r.choice([None, 0.1, 0.25, 0.4])),
+         lambda x, p: ([x, p["eps"]], {}), lambda x, p: t.logit(x, p["eps"]),
+         lambda p: [0.5] if p["eps"] is None else [p["eps"], 1 - p["eps"]]),
+        ("clamp_min", "aten_clamp_min", dict(b=0.5), lambda r: dict(b=r.choice([0.0, 0.5, -1.0])),
+         lambda x, p: ([x, p["b"]], {}), lambda x, p: t.clamp_min(x, p["b"]), lambda p: [p["b"]]),
+        ("clamp_max", "aten_clamp_max", dict(b=-0.5), lambda r: dict(b=r.choice([0.0, 0.5, -1.0])),
+         lambda x, p: ([x, p["b"]], {}), lambda x, p: t.clamp_max(x, p["b"]), lambda p: [p["b"]]),
+        ("selu", "aten_selu", dict(), lambda r: dict(), lambda x, p: ([x], {}), lambda x, p: F.selu(x), lambda p: [0.0]),
+        ("silu", "aten_silu", dict(), lambda r: dict(), lambda x, p: ([x], {}), lambda x, p: F.silu(x), lambda p: [0.0]),
+        ("mish", "aten_mish", dict(), lambda r: dict(), lambda x, p: ([x], {}), lambda x, p: F.mish(x), lambda p: [0.0]),
+        ("log_sigmoid", "aten_log_sigmoid", dict(), lambda r: dict(), lambda x, p: ([x], {}), lambda x, p: F.logsigmoid(x), lambda p: [0.0]),
+    ]
+
+
+ACTIVATIONS = ["softplus", "leaky_relu", "hardtanh", "celu", "relu6", "hardsigmoid", "hardswish", "gelu", "logit", "clamp_min",
+               "clamp_max", "selu", "silu", "mish", "log_sigmoid"]
+
+
+def activation_inputs(knees, lo=None, hi=None):
+    ks = sorted(set(float(k) for k in knees))
+    pts = []
+    for k in ks:
+        pts += [k - 0.3, k - 0.05, k + 0.05, k + 0.3]
+    pts += [(a + b) / 2 for a, b in zip(ks, ks[1:])]
+    pts += [ks[0] - 2.5, ks[-1] + 2.5]
+    if lo is not None:
+        pts = [min(max(v, lo), hi) for v in pts]
+    return np.asarray(np.array(sorted(set(pts)), dtype=np.float32))
+
+
+def piecewise_activations(L, run, stats, one):
+    t = L._mods()["torch"]
+    rng = run.rng
+    table = _activation_table(t)
+    if [e[0] for e in table] != ACTIVATIONS:
+        raise core.Infra("activation table and ACTIVATIONS disagree")
+    before = stats["float_cases"]
+    probs_before = None
+    n = run.size(3, 10)
+    for name, fnname, first, rand, mk, tf, knees in table:
+        for i in range(n):
+            p = dict(first) if i == 0 else rand(rng)
+            ks = knees(p)
+            x = activation_inputs(ks, *((0.02, 0.98) if name == "logit" else (None, None)))
+            if i % 3 == 2:
+                x = np.asarray(x.reshape(1, -1))                     # a rank-2 view of the same points
+            args, kw = mk(x, p)
+            stats[f"act:{name}"] += 1
+            if len(set(ks)) == len(ks):
+                stats[f"act:{name}:knees-distinct"] += 1
+            one(fnname, args, kw, lambda: tf(t.tensor(x), p),
+                dict(fn=name, params={k: v for k, v in p.items()}, knees=[float(k) for k in ks], x=x.reshape(-1).tolist()))
+    stats["activation_cases"] = stats["float_cases"] - before
+    missing = [a for a in ACTIVATIONS if stats[f"act:{a}"] == 0 or stats[f"act:{a}:knees-distinct"] == 0]
+    if missing:
+        raise core.Infra("generator degenerated: piecewise activations never exercised with distinct knees: " + ", ".join(missing))
+    return []
 
 
 # --------------------------------------------------------------------------- exporter half
